@@ -91,4 +91,23 @@ theorem c01_or (fuel : Nat) (env : Model.Interp.Env) (id : Nat) (q : List String
             (Model.Interp.evalM fuel env b (Model.Interp.evalM fuel env a s).2).1 == some true) :=
   Proofs.Funcs.fn_or fuel env id q a b s
 
+/-- string and math functions on arguments that evaluate to strings / integers (whatever the arguments are: cells, variables,
+    nested functions): `concat` concatenates, `length` counts characters, `strip` trims, `starts_with` tests the trimmed
+    prefix, `add` adds — each in the state its arguments leave, changing nothing itself -/
+theorem c01_strings_math (fuel : Nat) (env : Model.Interp.Env) (id : Nat) (q : List String) (a b : Model.Interp.Node)
+    (s s1 s2 : Model.Interp.ES) :
+    (∀ x y : String, Model.Interp.evalV fuel env a s = (.str x, s1) → Model.Interp.evalV fuel env b s1 = (.str y, s2) →
+      Model.Interp.produceFn (fuel + 1) env id "concat" q [a, b] s = (.str (x ++ y), s2) ∧
+      Model.Interp.produceFn (fuel + 1) env id "starts_with" q [a, b] s =
+        (.bool ((Model.PyStr.strip y).toList.isPrefixOf (Model.PyStr.strip x).toList), s2)) ∧
+    (∀ x : String, Model.Interp.evalV fuel env a s = (.str x, s1) →
+      Model.Interp.produceFn (fuel + 1) env id "length" q [a] s = (.int x.length, s1) ∧
+      Model.Interp.produceFn (fuel + 1) env id "strip" q [a] s = (.str (Model.PyStr.strip x), s1)) ∧
+    (∀ x y : Int, Model.Interp.evalV fuel env a s = (.int x, s1) → Model.Interp.evalV fuel env b s1 = (.int y, s2) →
+      Model.Interp.produceFn (fuel + 1) env id "add" q [a, b] s = (.flt (x + y), s2)) :=
+  ⟨fun x y h1 h2 => ⟨Proofs.Funcs.fn_concat fuel env id q a b x y s s1 s2 h1 h2,
+                     Proofs.Funcs.fn_starts_with fuel env id q a b x y s s1 s2 h1 h2⟩,
+   fun x h1 => ⟨Proofs.Funcs.fn_length fuel env id q a x s s1 h1, Proofs.Funcs.fn_strip fuel env id q a x s s1 h1⟩,
+   fun x y h1 h2 => Proofs.Funcs.fn_add fuel env id q a b x y s s1 s2 h1 h2⟩
+
 end Props.C01
